@@ -16,6 +16,10 @@ CLAIMED = {
             "Seeded search over window histories: a real client session runs against a scripted peer that plays the receiving session end and issues seeded flow frames (window 0, shrinking windows, unset next-incoming-id, echo) while 1-3 real sender links push single- and multi-frame transfers; initial next-outgoing-id values include those within a window of 2^31 and 2^32. The wire monitor checks every transfer frame against the windows the peer had advertised (serial arithmetic; strict after simulator-proven quiescence), every reported next-outgoing-id/next-incoming-id against counted frames, and the scenario checks that held transfers come out exactly once, in order, unchanged, and all of them within a virtual deadline after the final window opening.",
             "Trusted: the simulator, the independent frame splitter/codec (refcodec), tokio's paused clock. In-flight rule: a transfer is accepted if it fits any window statement not provably superseded, so races between flows and transfers in flight never alarm.",
             "window reference model on the wire + bounded-liveness drain against a scripted session peer", "3 C07"),
+    "C08": ("exploration",
+            "Seeded search over flow histories and schedules: a real Sender (client side and listener side) runs against a scripted receiver that grants, reduces, drains and echoes credit in seeded steps; initial delivery-counts include values near 2^31 and 2^32. The wire monitor checks that every delivery started under a grant the receiver had made (serial arithmetic, one credit per delivery however many frames; strict after simulator-proven quiescence), drain requests must be answered with zero credit and the delivery-count at the limit, and after a final sufficient grant the peer goes silent and every send must complete within a virtual deadline. Schedule point H2 makes the multi-thread window between the failed credit check and the start of the wait an explorable choice.",
+            "Trusted: the simulator, refcodec, tokio's paused clock. H2 is the only intra-poll preemption point explored. In-flight rule for credit as for windows.",
+            "credit reference model on the wire + 'granted => completes with the peer silent' under schedule point H2", "3 C08"),
 }
 
 NOT_APPLICABLE = {
